@@ -27,7 +27,7 @@ theorem C12_sound (p : Path) (specs : List PyVal) (h : toPartSpecs p = .ok specs
     (∀ (i : Nat) (part : Part) (spec : PyVal), p.parts[i]? = some part → specs[i]? = some spec → SpecFor part spec) ∧
     p.datum = .none ∧ p.multi = .none ∧ p.source = none ∧
     (p.concrete = false → ∃ kvs, PyVal.dict kvs ∈ specs) := by
-  obtain ⟨⟨h1, h2, h3⟩, hm, hc⟩ := (C12L.toPartSpecs_ok p specs).1 h
+  obtain ⟨⟨h1, h2, h3⟩, -, hm, hc⟩ := (C12L.toPartSpecs_ok p specs).1 h
   refine ⟨C12L.mapM_ok_length _ _ _ hm, ?_, h1, h2, h3, ?_⟩
   · intro i part spec hp hs
     exact C12L.emit_ok part spec (C12L.mapM_ok_getElem? _ _ _ hm i part spec hp hs)
@@ -71,7 +71,7 @@ theorem C12_roundtrip (fuel : Nat) (p : Path) (specs : List PyVal) (h : toPartSp
     ∃ p', fromPartSpecs (fuel + 2) specs = .ok p' ∧ listEq partEq p'.parts p.parts = true ∧
       p'.datum = .none ∧ p'.multi = .none ∧ p'.source = none ∧
       (p'.concrete = true ↔ ∀ s ∈ specs, ∀ kvs, s ≠ .dict kvs) := by
-  obtain ⟨-, hm, -⟩ := (C12L.toPartSpecs_ok p specs).1 h
+  obtain ⟨-, -, hm, -⟩ := (C12L.toPartSpecs_ok p specs).1 h
   obtain ⟨parts', hr, heq⟩ := C12L.rebuild_emit_list fuel p.parts specs hm
   refine ⟨_, C12L.fromPartSpecs_of_rebuild (fuel + 1) specs parts' hr, heq, rfl, rfl, rfl, ?_⟩
   simp only [List.all_eq_true, Bool.not_eq_true', C12L.isDict_false_iff]
